@@ -10,7 +10,7 @@
 //! (new -> update* -> finalize), so one current transcript suffices.
 #![cfg(kani)]
 
-pub const CAP: usize = 640;
+pub const CAP: usize = 320;
 pub const SLOTS: usize = 6;
 
 static mut CUR: [u8; CAP] = [0; CAP];
